@@ -14,7 +14,7 @@ import math
 import operator
 from copy import copy
 from collections.abc import Iterator
-from decimal import Decimal, DivisionByZero
+from decimal import Decimal, DivisionByZero, InvalidOperation
 from typing import cast, NoReturn
 
 import elementpath.aliases as ta
@@ -655,17 +655,20 @@ def evaluate__idiv_operator(self: XPathToken, context: ta.ContextType = None) ->
         raise self.error('XPTY0004', err) from None
 
     try:
+        if op2 == 0:
+            raise ZeroDivisionError()
         result = op1 // op2
-    except (ZeroDivisionError, DivisionByZero):
-        if isinstance(context, XPathSchemaContext):
-            return 1
-        raise self.error('FOAR0001') from None
-    else:
         if result >= 0 or isinstance(op1, Decimal) or \
                 isinstance(op2, Decimal) or not op1 % op2:
             return int(result)
         else:
             return int(result) + 1
+    except (ZeroDivisionError, DivisionByZero):
+        if isinstance(context, XPathSchemaContext):
+            return 1
+        raise self.error('FOAR0001') from None
+    except (OverflowError, InvalidOperation):
+        raise self.error('FOAR0002') from None
 
 
 # Resolve the intrinsic ambiguity of some infix operators
